@@ -13,7 +13,8 @@ RULE = ("every name of length <= 4 (quick) / 5 (thorough) over {a, space, backsl
         "a second target, and every ordered pair of names of length <= 3, each in 7 layouts (one line, continuation per "
         "name, one rule per dependency, trailing whitespace, CRLF, duplicated dependency, CRLF continuations); parsed by "
         "the real DepfileParser: must be accepted with outs_/ins_ exactly the names, each dependency once. Rejection: "
-        "every small name without ':' and every dependency re-used as a target with dependencies. Names with one or more "
+        "every small name without ':' and every dependency re-used as a target with dependencies; all rule structures of up to 3 (thorough 4) "
+        "rules over four names against a reference reader (which rules make a file invalid, which names end up where). Names with one or more "
         "backslashes directly before '#' are representable (the compilers add one backslash, the scanner removes one). Second "
         "pass: the same enumeration over {a, space, backslash, c} for every other character c of , = + @ - _ ( ) [ ] { } ! & ' \" . / 0 Z")
 
@@ -40,8 +41,13 @@ def main(argv):
     for ch in others:
         alpha = ("a \\" + ch).encode("latin-1").hex()
         cmds.append([exe, "alpha=" + alpha, "maxlen=%d" % maxlen, "pairlen=2", "shard=0", "nshards=1"])
+    # rule structures: every depfile of up to 3 (thorough: 4) rules over four names, one target and 0-2 dependencies each
+    nrules = 3 if c.tier == "quick" else 4
+    for i in range(NCPU):
+        cmds.append([exe, "structures=%d" % nrules, "shard=%d" % i, "nshards=%d" % NCPU])
     res = c.run_many(cmds)
     tot = {"cases": 0, "files": 0, "rejected_ok": 0}
+    structures = {"depfiles": 0, "accepted": 0, "rejected": 0}
     names = 0
     extra_names = 0
     samples = []
@@ -51,6 +57,12 @@ def main(argv):
             continue
         for k in tot:
             tot[k] += val[k]
+        if "structures=" in " ".join(cmd):
+            structures["depfiles"] += val["cases"]
+            structures["accepted"] += val["accepted_ok"]
+            structures["rejected"] += val["rejected_ok"]
+            val.setdefault("samples", [])
+            val.setdefault("representable_names", 0)
         names = max(names, val["representable_names"]) if "alpha=" not in " ".join(cmd) else names
         if "alpha=" in " ".join(cmd):
             extra_names += val["representable_names"]
@@ -80,7 +92,10 @@ def main(argv):
         "states": names, "transitions": tot["files"], "traces_validated_against_impl": tot["files"],
         "evaluations": tot["files"], "distinct_nontrivial": tot["cases"],
         "rule": RULE, "representable_names": names, "names_of_the_second_pass_over_other_characters": extra_names, "name_placements": tot["cases"], "depfiles_parsed": tot["files"],
-        "rejections_confirmed": tot["rejected_ok"], "samples": samples[:4] or ["T.o: a\\ b\n"],
+        "rejections_confirmed": tot["rejected_ok"],
+        "rule_structures": dict(structures, rule="every depfile of 1..%d rules over the names a b c d, one target and 0-2 dependencies per rule; "
+                                "reference: invalid iff a rule's target was named as a dependency earlier and the rule has dependencies; "
+                                "otherwise targets / dependencies in order of first appearance, each once" % nrules), "samples": samples[:4] or ["T.o: a\\ b\n"],
     }
     c.finish(cov, assumptions=["reference encoder = GCC/Clang Makefile quoting as implemented in src/ix/depfile.cc (Encode)",
                                "names that the dialect cannot represent unambiguously (empty, ending in ':' or '\\\\', containing "
